@@ -21,8 +21,15 @@ pub broadcast axiom fn axiom_key_itempath()
 pub broadcast axiom fn axiom_str_ext(a: &str, b: &str)
     ensures #[trigger] a@ == #[trigger] b@ ==> a == b;
 
+/// `String` hashing and equality agree and compare contents (std contract of `impl Hash/Eq for String`)
+pub broadcast axiom fn axiom_key_string()
+    ensures #[trigger] vstd::std_specs::hash::obeys_key_model::<String>();
+pub broadcast axiom fn axiom_string_ext(a: String, b: String)
+    ensures #[trigger] a@ == #[trigger] b@ ==> a == b;
+
 pub broadcast group group_pyxis_axioms {
     axiom_str_ext,
+    axiom_key_string,
     axiom_fmt_itempath,
     axiom_key_itempath,
 }
